@@ -7,12 +7,15 @@ ID = 'C06'
 LEAN_MODULES = ['HidVerif.Props.C06']
 THEOREMS = ['HidVerif.Props.C06.' + n for n in ('ctx_algebra', 'ctx_tests_pinned', 'func_contexts_pinned', 'reachable_closed',
                                                  'you_permissions', 'try_body_permissions', 'handler_context', 'spec_permissions',
-                                                 'defeat_permissions', 'ordinary_permissions', 'global_permissions', 'loop_flag')]
+                                                 'defeat_permissions', 'ordinary_permissions', 'global_permissions', 'loop_flag',
+                                                 'accepted_programs_respect_the_rules')] + \
+           ['HidVerif.Hid.Parse.parse_sound', 'HidVerif.Hid.Parse.rel_steps']
 TRUSTED = TRUSTED_BASE + ['Hid/Parser.lean: hand-written model of rules.py/grammar.py using the regenerated context expressions, tests and '
                           'operator tables (Gen/Grammar.lean); tied by the parse suite (trees, error class, error position)',
                           'the permission table in harness/props/C06.py (independent reading of README "Summary of what\'s allowed")']
-ASSUMPTIONS = _A + ['soundness of whole parses w.r.t. the declarative context rules is validated by exhaustive placement enumeration, '
-                    'not proved by induction over the parser yet; completeness likewise']
+ASSUMPTIONS = _A + ['soundness (accepted => rules hold) is proved for the parser MODEL; that the model is the real parser is the parse suite',
+                    'completeness (every program that respects the rules is accepted) is validated by exhaustive placement enumeration, '
+                    'not proved']
 RULE = ('placement enumeration: 9 leaf constructs (ordinary/you/defeat call, try, preempt, ??, break, continue, nested loop) x every path '
         'of statement wrappers (try body, undo/stop handler, preempt body, while/for/if/else/block) up to depth 2 (thorough 3) x expression '
         'wrappers (paren, index, call argument, array literal, ?? left/right) up to depth 2 x three function flavours, plus '
